@@ -157,7 +157,7 @@ def run_sim(pid, tier, v, build):
     without equal-named twin interfaces"""
     (N, maxb, isif, defc, rootx, depth, wg, num) = SIM[tier]
     plans = [(N, maxb, isif, defc, rootx, depth, wg, num, [])]
-    if pid in ('C02', 'C15', 'C10'):
+    if pid in ('C02', 'C15'):
         plans.append((4, 1, 'AllIface4', 'DefBoth', False, 14, True,
                       num, [[1, 2]]))
         plans.append((5, 2, 'AllIface5', 'DefBoth', False, 16, True,
